@@ -424,3 +424,353 @@ Proof.
   - exact Hsp'.
   - lia.
 Qed.
+
+(* G: the sender's close_internal: producer_dropped is set and every registered waker is invoked *)
+Lemma Jg_sender_close s a c y t :
+  Jg true s -> tx_busy s = false -> Jg true (wake_all (set_sender s a c y t true)).
+Proof.
+  intros Hj Hb. unfold wake_all. cbn [set_sender regs]. rewrite wake_list_set_regs, wake_list_set_sender.
+  set (ws := map snd (regs s)). set (sa := wake_list ws s).
+  assert (Hja : Jg true sa) by (apply Jg_wake_list; exact Hj).
+  assert (Hnw : forall w, In w ws -> none_waiting w sa) by (intros w Hin; apply none_waiting_list; left; exact Hin).
+  destruct (same_chan_wake_list ws s) as (Sc & Sl & _ & Scl & Sp & Sx & Sr & Sw). fold sa in Sc, Sl, Scl, Sp, Sx, Sr, Sw.
+  intros f x Hg Hl. cbn [set_regs set_sender futs] in Hg. destruct (Hja f x Hg Hl) as [A B]. split; [exact A|].
+  intros w Hw Hk. specialize (B w Hw Hk). unfold Pw' in *. cbn [set_regs set_sender rxs cap regs pdrop pw s_closed].
+  destruct (fut_rx (f_kind x)) as [r0|] eqn:Ek.
+  - destruct B as (y0 & Hg0 & B). exists y0. split; [exact Hg0|].
+    destruct B as [B|[B|(B1 & _)]]; [left; exact B|right; left; exact B|].
+    exfalso. rewrite Sr in B1. apply has_reg_in_all in B1. pose proof (Hnw w B1 f x Hg Hw). congruence.
+  - exfalso.
+    assert (Hfs : exists x0, get (futs s) f = Some x0 /\ f_live x0 = true /\ f_kind x0 = f_kind x).
+    { clear - Hg Hl. unfold sa in Hg. revert Hg. generalize s. induction ws as [|w0 t0 IH]; intros s0 Hg.
+      - eauto.
+      - cbn [wake_list fold_left] in Hg. change (get (futs (wake_list t0 (wake w0 s0))) f = Some x) in Hg.
+        destruct (IH _ Hg) as (x1 & Hg1 & Hl1 & Hk1). unfold wake in Hg1. cbn [set_futs set_wlog futs] in Hg1.
+        rewrite get_map_mark in Hg1. destruct (get (futs s0) f) as [x0|]; [|discriminate].
+        assert (Hx : x1 = snd (mark w0 (f, x0))) by (inversion Hg1; reflexivity). subst x1.
+        destruct (mark_fields w0 f x0) as (Hk0 & Hlv0 & _). exists x0. rewrite <- Hlv0, <- Hk0, Hk1. auto. }
+    destruct Hfs as (x0 & Hg0 & Hl0 & Hk0). apply (no_live_tx_fut s f x0 Hb Hg0 Hl0). rewrite Hk0. exact Ek.
+Qed.
+
+(* H: sender flag updates while no send future is alive, producer_dropped unchanged *)
+Lemma Jg_set_sender s a c y t :
+  Jg true s -> tx_busy s = false -> Jg true (set_sender s a c y t (pdrop s)).
+Proof.
+  intros Hj Hb f x Hg Hl. cbn [set_sender futs] in Hg. destruct (Hj f x Hg Hl) as [A B]. split; [exact A|].
+  intros w Hw Hk. specialize (B w Hw Hk). unfold Pw' in *. cbn [set_sender rxs cap regs pdrop pw].
+  change (head (set_sender s a c y t (pdrop s))) with (head s).
+  destruct (fut_rx (f_kind x)) as [r0|] eqn:Ek; [exact B|].
+  exfalso. apply (no_live_tx_fut s f x Hb Hg Hl). exact Ek.
+Qed.
+
+(* I: the futures table *)
+Lemma get_set_fut s f x g : get (futs (set_fut s f x)) g = if N.eqb g f then Some x else get (futs s) g.
+Proof.
+  cbn [set_fut set_futs futs]. destruct (N.eqb_spec g f) as [->|Hn]; [apply get_set_eq|apply get_set_neq; exact Hn].
+Qed.
+
+Lemma Pw'_set_fut strict s f x0 x w : Pw' strict (set_fut s f x0) x w <-> Pw' strict s x w.
+Proof. unfold Pw', space, cursors, head. cbn [set_fut set_futs rxs cap regs pdrop pw s_closed log]. tauto. Qed.
+
+Lemma Jg_set_fut_quiet s f x0 :
+  Jg true s -> fut_wf (f_kind x0) -> (f_live x0 = true -> f_wait x0 = None) -> Jg true (set_fut s f x0).
+Proof.
+  intros Hj Hwf Hq g x Hg Hl. rewrite get_set_fut in Hg. destruct (N.eqb_spec g f) as [->|Hn].
+  - inversion Hg; subst x. split; [exact Hwf|]. intros w Hw. rewrite (Hq Hl) in Hw. discriminate.
+  - destruct (Hj g x Hg Hl) as [A B]. split; [exact A|]. intros w Hw Hk. apply Pw'_set_fut. auto.
+Qed.
+
+Lemma Jg_kill s f x : Jg true s -> Jg true (kill s f x).
+Proof.
+  intros Hj g x1 Hg Hl. unfold kill in Hg. rewrite get_set_fut in Hg. destruct (N.eqb_spec g f) as [->|Hn].
+  - inversion Hg; subst x1. cbn [f_live] in Hl. discriminate.
+  - destruct (Hj g x1 Hg Hl) as [A B]. split; [exact A|]. intros w Hw Hk. apply Pw'_set_fut. auto.
+Qed.
+
+Lemma has_reg_app slot w l l2 : has_reg slot w l = true -> has_reg slot w (l ++ l2) = true.
+Proof. unfold has_reg. rewrite existsb_app. intros ->. reflexivity. Qed.
+
+Lemma register_has slot w s : has_reg slot w (regs (register slot w s)) = true.
+Proof.
+  unfold register. destruct (has_reg slot w (regs s)) eqn:E; [exact E|].
+  cbn [set_regs regs]. unfold has_reg. rewrite existsb_app. cbn [existsb fst snd]. rewrite !N.eqb_refl. apply orb_true_r.
+Qed.
+
+Lemma register_mono slot w s slot' w' :
+  has_reg slot' w' (regs s) = true -> has_reg slot' w' (regs (register slot w s)) = true.
+Proof.
+  unfold register. destruct (has_reg slot w (regs s)); [auto|]. cbn [set_regs regs]. apply has_reg_app.
+Qed.
+
+Lemma Jg_register slot w s : Jg true s -> Jg true (register slot w s).
+Proof.
+  intros Hj f x Hg Hl.
+  assert (Hf : futs (register slot w s) = futs s) by (unfold register; destruct (has_reg slot w (regs s)); reflexivity).
+  rewrite Hf in Hg. destruct (Hj f x Hg Hl) as [A B]. split; [exact A|].
+  intros w0 Hw Hk. specialize (B w0 Hw Hk). unfold Pw' in *.
+  assert (Hs : rxs (register slot w s) = rxs s /\ cap (register slot w s) = cap s /\ log (register slot w s) = log s /\
+               pdrop (register slot w s) = pdrop s /\ pw (register slot w s) = pw s /\
+               s_closed (register slot w s) = s_closed s)
+    by (unfold register; destruct (has_reg slot w (regs s)); repeat split).
+  destruct Hs as (H1 & H2 & H3 & H4 & H5 & H6). unfold space, cursors, head. rewrite H1, H2, H3, H4, H5, H6.
+  destruct (fut_rx (f_kind x)); [|exact B].
+  destruct B as (y0 & Hg0 & B). exists y0. split; [exact Hg0|].
+  destruct B as [B|[B|(B1 & B2 & B3)]]; auto. right. right. split; [apply register_mono; exact B1|auto].
+Qed.
+
+(* a receive future goes (back) to sleep: registered at its cursor's slot, nothing to read, sender there *)
+Lemma Jg_pend_rx s f k w r y :
+  Jg true s -> fut_rx k = Some r -> fut_wf k -> get (rxs s) r = Some y ->
+  (r_closed y = true \/ r_taint y = true \/ (head s <= r_cur y /\ pdrop s = false)) ->
+  Jg true (pend (register (r_cur y mod cap s) w s) f k w).
+Proof.
+  intros Hj Hk Hwf Hgy Hy. pose proof (Jg_register (r_cur y mod cap s) w s Hj) as Hj1.
+  intros g x Hg Hl. unfold pend in Hg. rewrite get_set_fut in Hg. destruct (N.eqb_spec g f) as [->|Hn].
+  - inversion Hg; subst x. cbn [f_kind f_wait]. split; [exact Hwf|]. intros w0 Hw _. inversion Hw; subst w0.
+    apply Pw'_set_fut. unfold Pw'. cbn [f_kind]. rewrite Hk.
+    assert (Hs : rxs (register (r_cur y mod cap s) w s) = rxs s /\ cap (register (r_cur y mod cap s) w s) = cap s /\
+                 log (register (r_cur y mod cap s) w s) = log s /\ pdrop (register (r_cur y mod cap s) w s) = pdrop s)
+      by (unfold register; destruct (has_reg (r_cur y mod cap s) w (regs s)); repeat split).
+    destruct Hs as (H1 & H2 & H3 & H4). unfold head. rewrite H1, H2, H3, H4. exists y. split; [exact Hgy|].
+    destruct Hy as [Hy|[Hy|[Hy1 Hy2]]]; auto. right. right. split; [apply register_has|]. split; assumption.
+  - destruct (Hj1 g x Hg Hl) as [A B]. split; [exact A|]. intros w0 Hw Hkk. apply Pw'_set_fut. auto.
+Qed.
+
+(* a send future goes (back) to sleep: it takes the single producer waker slot *)
+Lemma get_map_displace w f l g :
+  get (map (displace w f) l) g =
+  match get l g with Some x => Some (snd (displace w f (g, x))) | None => None end.
+Proof.
+  induction l as [|[k x] t IH]; cbn [map get]; [reflexivity|].
+  assert (Hf : fst (displace w f (k, x)) = k).
+  { unfold displace. destruct (N.eqb k f); [reflexivity|].
+    destruct (fut_rx (f_kind x)); [reflexivity|]. destruct (f_wait x) as [w'|]; [destruct (N.eqb w w')|]; reflexivity. }
+  destruct (displace w f (k, x)) as [k' x'] eqn:E. cbn [fst] in Hf. subst k'.
+  cbn [get]. destruct (N.eqb_spec g k) as [->|Hn]; [rewrite E; reflexivity | exact IH].
+Qed.
+
+Lemma Jg_pend_tx s f k w :
+  Jg true s -> fut_rx k = None -> fut_wf k -> s_closed s = false -> space s = Some 0 ->
+  Jg true (pend (reg_producer f w s) f k w).
+Proof.
+  intros Hj Hk Hwf Hc Hs g x Hg Hl. unfold pend in Hg. rewrite get_set_fut in Hg.
+  destruct (N.eqb_spec g f) as [->|Hn].
+  - inversion Hg; subst x. cbn [f_kind f_wait]. split; [exact Hwf|]. intros w0 Hw _. inversion Hw; subst w0.
+    apply Pw'_set_fut. unfold Pw'. cbn [f_kind]. rewrite Hk. right.
+    split; [reflexivity|]. intros _. split; [exact Hc|exact Hs].
+  - unfold reg_producer in Hg. cbn [set_pw set_futs futs] in Hg. rewrite get_map_displace in Hg.
+    destruct (get (futs s) g) as [x0|] eqn:E0; [|discriminate].
+    assert (Hx : x = snd (displace w f (g, x0))) by (inversion Hg; reflexivity). clear Hg. subst x.
+    unfold displace in *. destruct (N.eqb_spec g f) as [|_]; [contradiction|].
+    destruct (fut_rx (f_kind x0)) as [r0|] eqn:Ek.
+    + cbn [snd] in *. destruct (Hj g x0 E0 Hl) as [A B]. split; [exact A|]. intros w0 Hw Hkk.
+      apply Pw'_set_fut. specialize (B w0 Hw Hkk). unfold Pw' in *. rewrite Ek in *. exact B.
+    + destruct (f_wait x0) as [w'|] eqn:Ew.
+      * destruct (N.eqb_spec w w') as [->|Hne]; cbn [snd] in *.
+        -- destruct (Hj g x0 E0 Hl) as [A B]. split; [exact A|]. intros w0 Hw Hkk.
+           apply Pw'_set_fut. specialize (B w0 Hw Hkk). unfold Pw' in *. rewrite Ek in *.
+           destruct B as [B|(B1 & B2)]; [left; exact B|right]. rewrite Ew in Hw. inversion Hw; subst w0.
+           split; [reflexivity|exact B2].
+        -- cbn [f_live f_kind f_wait f_woken f_disp] in *. destruct (Hj g x0 E0 Hl) as [A _]. split; [exact A|].
+           intros w0 Hw Hkk. apply Pw'_set_fut. unfold Pw'. cbn [f_kind f_disp]. rewrite Ek. left. reflexivity.
+      * cbn [snd] in *. destruct (Hj g x0 E0 Hl) as [A B]. split; [exact A|]. intros w0 Hw. rewrite Ew in Hw. discriminate.
+Qed.
+
+Lemma Jg_ext s s' :
+  futs s' = futs s -> rxs s' = rxs s -> cap s' = cap s -> log s' = log s -> regs s' = regs s ->
+  pdrop s' = pdrop s -> pw s' = pw s -> s_closed s' = s_closed s -> Jg true s -> Jg true s'.
+Proof.
+  intros H1 H2 H3 H4 H5 H6 H7 H8 Hj f x Hg Hl. rewrite H1 in Hg. destruct (Hj f x Hg Hl) as [A B]. split; [exact A|].
+  intros w Hw Hk. specialize (B w Hw Hk). unfold Pw', space, cursors, head in *.
+  rewrite H2, H3, H4, H5, H6, H7, H8. exact B.
+Qed.
+
+Lemma Jg_add_drops s l : Jg true s -> Jg true (add_drops s l).
+Proof. apply Jg_ext; reflexivity. Qed.
+
+Lemma Jg_release s : Jg true s -> Jg true (release s).
+Proof. unfold release. destruct (all_dead s); [apply Jg_add_drops|auto]. Qed.
+
+Lemma Jg_ext_any strict s s' :
+  futs s' = futs s -> rxs s' = rxs s -> cap s' = cap s -> log s' = log s -> regs s' = regs s ->
+  pdrop s' = pdrop s -> pw s' = pw s -> s_closed s' = s_closed s -> Jg strict s -> Jg strict s'.
+Proof.
+  intros H1 H2 H3 H4 H5 H6 H7 H8 Hj f x Hg Hl. rewrite H1 in Hg. destruct (Hj f x Hg Hl) as [A B]. split; [exact A|].
+  intros w Hw Hk. specialize (B w Hw Hk). unfold Pw', space, cursors, head in *.
+  rewrite H2, H3, H4, H5, H6, H7, H8. exact B.
+Qed.
+
+(* busy flags only read liveness and kind, which waking never changes *)
+Lemma existsb_mark w (g : fkind -> bool) l :
+  existsb (fun p => f_live (snd p) && g (f_kind (snd p))) (map (mark w) l) =
+  existsb (fun p => f_live (snd p) && g (f_kind (snd p))) l.
+Proof.
+  induction l as [|[k x] t IH]; [reflexivity|]. cbn [map existsb]. rewrite IH. f_equal.
+  destruct (mark_fields w k x) as (Hk & Hl & _). rewrite Hk, Hl. reflexivity.
+Qed.
+
+Lemma rx_busy_wake w s r : rx_busy (wake w s) r = rx_busy s r.
+Proof.
+  unfold rx_busy, wake. cbn [set_futs set_wlog futs].
+  apply (existsb_mark w (fun k => match fut_rx k with Some r' => N.eqb r r' | None => false end)).
+Qed.
+
+Lemma tx_busy_wake w s : tx_busy (wake w s) = tx_busy s.
+Proof.
+  unfold tx_busy, wake. cbn [set_futs set_wlog futs].
+  apply (existsb_mark w (fun k => match fut_rx k with Some _ => false | None => true end)).
+Qed.
+
+Lemma tx_busy_wake_list ws : forall s, tx_busy (wake_list ws s) = tx_busy s.
+Proof.
+  induction ws as [|w t IH]; intros s; [reflexivity|]. cbn [wake_list fold_left].
+  change (tx_busy (wake_list t (wake w s)) = tx_busy s). rewrite IH. apply tx_busy_wake.
+Qed.
+
+Lemma rx_busy_wake_producer s r : rx_busy (wake_producer s) r = rx_busy s r.
+Proof. unfold wake_producer. destruct (pw s); [rewrite rx_busy_wake|]; reflexivity. Qed.
+
+(* exact space after a batch write *)
+Lemma space_write_many vs s m :
+  minl (cursors s) = Some m ->
+  space (write_many vs s) = Some (cap s - N.min (head s + lenN vs - m) (cap s)).
+Proof.
+  intros Hm. pose proof (proj_write_many vs s) as Hp. unfold space.
+  change (cursors (write_many vs s)) with (c_cursors (proj (write_many vs s))). rewrite Hp.
+  change (c_cursors (with_log (proj s) (log s ++ vs))) with (cursors s). rewrite Hm.
+  change (cap (write_many vs s)) with (c_cap (proj (write_many vs s))).
+  change (head (write_many vs s)) with (c_head (proj (write_many vs s))). rewrite Hp.
+  unfold c_head. cbn [with_log c_log c_cap proj]. rewrite lenN_app. reflexivity.
+Qed.
+
+Definition cur_le_head (s : st) : Prop :=
+  forall r y, get (rxs s) r = Some y -> r_taint y = false -> r_closed y = false -> r_cur y <= head s.
+
+Lemma inv_cur_le_head s outs : InvC (proj s) outs -> cur_le_head s.
+Proof. intros I r y Hg _ _. destruct (i_rx _ _ I r y Hg) as (_ & B & _). exact B. Qed.
+
+Definition min_le_head (s : st) : Prop := forall m, minl (cursors s) = Some m -> m <= head s.
+
+Lemma inv_min_le_head s outs : InvC (proj s) outs -> min_le_head s.
+Proof.
+  intros I m Hm. apply minl_in in Hm. change (cursors s) with (c_cursors (proj s)) in Hm.
+  apply in_cursors in Hm; [|exact (i_nd _ _ I)]. destruct Hm as (r & x & Hg & _ & <-).
+  destruct (i_rx _ _ I r x Hg) as (_ & B & _). exact B.
+Qed.
+
+Lemma try_send_core_J v s s' res :
+  Jg true s -> cur_le_head s -> try_send_core v s = (s', res) ->
+  Jg true s' /\ (res = SFull -> s' = s /\ space s = Some 0).
+Proof.
+  intros Hj Hc. unfold try_send_core. destruct (minl (cursors s)) as [m|] eqn:Em.
+  - destruct (N.leb_spec (cap s) (head s - m)) as [Hle|Hlt]; intros H; inversion H; subst.
+    + split; [exact Hj|]. intros _. split; [reflexivity|]. unfold space. rewrite Em. f_equal. lia.
+    + split; [|discriminate]. apply (Jg_write1 v s (cap s - N.min (head s - m) (cap s))); auto.
+      * unfold space. rewrite Em. reflexivity.
+      * lia.
+  - intros H; inversion H; subst. split; [exact Hj|discriminate].
+Qed.
+
+Lemma send_some_J vs s s' k rest :
+  Jg true s -> cur_le_head s -> min_le_head s -> send_some vs s = Some (s', k, rest) ->
+  Jg true s' /\ s_closed s' = s_closed s /\ rest = skipnN k vs /\ k <= lenN vs /\
+  (k <> lenN vs -> space s' = Some 0).
+Proof.
+  intros Hj Hc Hm. unfold send_some. destruct (space s) as [sp|] eqn:Es; [|discriminate].
+  intros H. inversion H; subst. clear H.
+  split; [|split; [|split; [reflexivity|split; [lia|]]]].
+  - apply (Jg_write_many _ s sp); auto. rewrite firstnN_len. lia.
+  - change (c_closed (proj (write_many (firstnN (N.min sp (lenN vs)) vs) s)) = s_closed s).
+    rewrite proj_write_many. reflexivity.
+  - intros Hne. unfold space in Es. destruct (minl (cursors s)) as [m|] eqn:Em; [|discriminate].
+    specialize (Hm m Em).
+    inversion Es; subst sp. rewrite (space_write_many _ s m Em), firstnN_len. f_equal. lia.
+Qed.
+
+Lemma recv_J r y s s' res outs :
+  Jg true s -> InvC (proj s) outs -> get (rxs s) r = Some y -> r_closed y = false ->
+  try_recv_core r y s = (s', res) ->
+  Jg true s' /\ (res = REmpty -> s' = s /\ (r_taint y = true \/ (head s <= r_cur y /\ pdrop s = false))).
+Proof.
+  intros Hj I Hg Hc H. pose proof (try_recv_core_spec _ _ _ _ _ H) as Hs. destruct res as [v| |].
+  - destruct Hs as (_ & _ & _ & Hw). split; [|discriminate].
+    unfold try_recv_core in H. rewrite Hw in H. inversion H; subst. apply Jg_wake_producer.
+    apply (Jg_ext_any false (set_rx s r (adv y 1))); try reflexivity.
+    apply Jg_set_rx_adv; auto. apply in_window_spec in Hw. tauto.
+  - destruct Hs as (-> & Hw & Hp). split; [exact Hj|]. intros _. split; [reflexivity|].
+    destruct (r_taint y) eqn:Et; [left; reflexivity|right].
+    destruct (i_rx _ _ I r y Hg) as (A & B & C & D & E & F & G).
+    assert (Hr : r_reg y = true).
+    { destruct (r_reg y) eqn:Er; [reflexivity|]. specialize (E Et eq_refl). congruence. }
+    specialize (C Et Hr). change (c_head (proj s)) with (head s) in *. change (c_cap (proj s)) with (cap s) in *.
+    assert (Hh : head s <= r_cur y).
+    { destruct (N.lt_ge_cases (r_cur y) (head s)) as [Hlt|]; [|assumption].
+      assert (in_window s (r_cur y) = true) by (apply in_window_spec; split; assumption). congruence. }
+    split; [exact Hh|]. destruct Hp as [Hp|Hp]; [exact Hp|lia].
+  - destruct Hs as (-> & _). split; [exact Hj|discriminate].
+Qed.
+
+Lemma recv_batch_J r y n s s' res :
+  Jg true s -> get (rxs s) r = Some y -> r_closed y = false ->
+  try_recv_batch_core r y n s = (s', res) ->
+  Jg true s' /\ (res = BEmpty -> s' = s /\ head s <= r_cur y /\ pdrop s = false).
+Proof.
+  intros Hj Hg Hc H. unfold try_recv_batch_core in H.
+  destruct (N.leb_spec (head s) (r_cur y)) as [Hle|Hlt].
+  - destruct (pdrop s) eqn:Ep; inversion H; subst; (split; [exact Hj|]); [discriminate|auto].
+  - inversion H; subst. split; [|discriminate]. apply Jg_wake_producer.
+    eapply (Jg_ext_any false (set_rx s r (adv y _))); try reflexivity.
+    apply Jg_set_rx_adv; auto.
+Qed.
+
+Lemma skipnN_len {A} k (l : list A) : k <= lenN l -> lenN (skipnN k l) + k = lenN l.
+Proof. unfold lenN, skipnN. intros H. rewrite skipn_length. lia. Qed.
+
+Lemma poll_J s f x w s' o outs :
+  Jg true s -> InvC (proj s) outs -> get (futs s) f = Some x -> f_live x = true ->
+  poll_fut s f x w = (s', o) -> Jg true s'.
+Proof.
+  intros Hj I Hgf Hlf. destruct (Hj f x Hgf Hlf) as [Hwf _]. pose proof (inv_cur_le_head s outs I) as Hcl.
+  pose proof (inv_min_le_head s outs I) as Hml.
+  unfold poll_fut. destruct (f_kind x) as [r|r n|v|rest sent total|rest sent] eqn:Ek.
+  - destruct (get (rxs s) r) as [y|] eqn:Eg; [|intros H; pinv H; exact Hj].
+    destruct (r_closed y) eqn:Ec; [intros H; pinv H; apply Jg_kill; exact Hj|].
+    destruct (try_recv_core r y s) as [s1 res] eqn:Et.
+    destruct (recv_J r y s s1 res outs Hj I Eg Ec Et) as [Hj1 He].
+    destruct res; intros H; pinv H; try (apply Jg_kill; exact Hj1).
+    destruct (He eq_refl) as [-> Hy]. apply (Jg_pend_rx s f (FRecv r) w r y); auto; try exact Logic.I.
+  - destruct (get (rxs s) r) as [y|] eqn:Eg; [|intros H; pinv H; exact Hj].
+    destruct (r_closed y) eqn:Ec; [intros H; pinv H; apply Jg_kill; exact Hj|].
+    destruct (N.eqb n 0); [intros H; pinv H; apply Jg_kill; exact Hj|].
+    destruct (try_recv_batch_core r y n s) as [s1 res] eqn:Et.
+    destruct (recv_batch_J r y n s s1 res Hj Eg Ec Et) as [Hj1 He].
+    destruct res; intros H; pinv H; try (apply Jg_kill; exact Hj1).
+    destruct (He eq_refl) as (-> & Hy1 & Hy2). apply (Jg_pend_rx s f (FRecvB r n) w r y); auto; try exact Logic.I.
+  - destruct (s_alive s); cbn [negb]; [|intros H; pinv H; exact Hj].
+    destruct (s_closed s) eqn:Ec; [intros H; pinv H; apply Jg_add_drops, Jg_kill; exact Hj|].
+    destruct (try_send_core v s) as [s1 res] eqn:Et.
+    destruct (try_send_core_J v s s1 res Hj Hcl Et) as [Hj1 Hf].
+    destruct res; intros H; pinv H; try (apply Jg_add_drops); try (apply Jg_kill; exact Hj1).
+    destruct (Hf eq_refl) as [-> Hsp]. apply Jg_pend_tx; auto; try exact Logic.I.
+  - destruct (s_alive s); cbn [negb]; [|intros H; pinv H; exact Hj].
+    destruct (N.eqb sent total); [intros H; pinv H; apply Jg_kill; exact Hj|].
+    destruct (s_closed s) eqn:Ec; [intros H; pinv H; apply Jg_add_drops, Jg_kill; exact Hj|].
+    destruct (send_some rest s) as [[[s1 k] rest']|] eqn:Es;
+      [|intros H; pinv H; apply Jg_add_drops, Jg_kill; exact Hj].
+    destruct (send_some_J rest s s1 k rest' Hj Hcl Hml Es) as (Hj1 & Hc1 & Hr & Hk & Hsp).
+    destruct (N.eqb_spec (sent + k) total) as [He|Hne]; intros H; pinv H; [apply Jg_kill; exact Hj1|].
+    cbn [fut_wf] in Hwf. apply Jg_pend_tx; auto.
+    + cbn [fut_wf]. pose proof (skipnN_len k rest Hk). lia.
+    + congruence.
+    + apply Hsp. intros Heq. apply Hne. lia.
+  - destruct (s_alive s); cbn [negb]; [|intros H; pinv H; exact Hj].
+    destruct rest as [|v0 rest0]; [intros H; pinv H; apply Jg_kill; exact Hj|].
+    destruct (s_closed s) eqn:Ec; [intros H; pinv H; apply Jg_add_drops, Jg_kill; exact Hj|].
+    destruct (send_some (v0 :: rest0) s) as [[[s1 k] rest']|] eqn:Es;
+      [|intros H; pinv H; apply Jg_add_drops, Jg_kill; exact Hj].
+    destruct (send_some_J _ s s1 k rest' Hj Hcl Hml Es) as (Hj1 & Hc1 & Hr & Hk & Hsp).
+    destruct rest' as [|v1 rest1] eqn:Er; intros H; pinv H; [apply Jg_kill; exact Hj1|].
+    apply Jg_pend_tx; auto; try exact Logic.I; try congruence.
+    apply Hsp. intros Heq. pose proof (skipnN_len k (v0 :: rest0) Hk) as Hl. rewrite <- Hr in Hl.
+    unfold lenN in Hl at 1. cbn [length] in Hl. lia.
+Qed.
